@@ -11,7 +11,9 @@
 package fetcher
 
 import (
+	"bytes"
 	"context"
+	"slices"
 
 	"github.com/sourcenetwork/corekv"
 
@@ -19,6 +21,7 @@ import (
 	"github.com/sourcenetwork/defradb/errors"
 	"github.com/sourcenetwork/defradb/internal/connor"
 	"github.com/sourcenetwork/defradb/internal/db/id"
+	"github.com/sourcenetwork/defradb/internal/encoding"
 	"github.com/sourcenetwork/defradb/internal/keys"
 	"github.com/sourcenetwork/defradb/internal/planner/filter"
 	"github.com/sourcenetwork/defradb/internal/planner/mapper"
@@ -239,6 +242,8 @@ type inIndexIterator struct {
 	fieldConditions []fieldFilterCond
 	matchers        []valueMatcher
 	isUnique        bool
+	// reverse is true if the entries of each value have to be read backwards to serve the requested order
+	reverse bool
 }
 
 var _ indexIterator = (*inIndexIterator)(nil)
@@ -289,7 +294,8 @@ func (iter *inIndexIterator) createIteratorForNextValue() error {
 			Descending: iter.fetcher.indexDesc.Fields[0].Descending,
 		}}
 
-		iter.indexIterator = iter.fetcher.newPrefixBaseMatchIterator(indexKey, iter.matchers, iter.fetcher.execInfo)
+		iter.indexIterator = iter.fetcher.newPrefixBaseMatchIterator(indexKey, iter.matchers, iter.fetcher.execInfo).
+			Reverse(iter.reverse)
 	}
 
 	return nil
@@ -472,6 +478,21 @@ func (f *indexFetcher) newInIndexIterator(
 		matchers[0] = &anyMatcher{}
 	}
 
+	// The documents are yielded value by value. If the index is relied upon to serve the requested order, the
+	// values have to be visited in the order of their index entries (backwards if the index is read in reverse).
+	ordered, reverse := CanBeOrderedByIndex(f.ordering, f.indexDesc, f.mapping)
+	if ordered {
+		entryKey := func(val client.NormalValue) []byte {
+			return encoding.EncodeFieldValue(nil, val, f.indexDesc.Fields[0].Descending)
+		}
+		slices.SortStableFunc(inValues, func(a, b client.NormalValue) int {
+			if reverse {
+				return bytes.Compare(entryKey(b), entryKey(a))
+			}
+			return bytes.Compare(entryKey(a), entryKey(b))
+		})
+	}
+
 	isUnique := isUniqueFetchByFullKey(&f.indexDesc, fieldConditions)
 
 	inIter := &inIndexIterator{
@@ -480,6 +501,7 @@ func (f *indexFetcher) newInIndexIterator(
 		fieldConditions: fieldConditions,
 		matchers:        matchers,
 		isUnique:        isUnique,
+		reverse:         ordered && reverse,
 	}
 
 	err = inIter.createIteratorForNextValue()
